@@ -570,7 +570,7 @@ func BackgroundOriginHandler(value string) bool {
 }
 
 func BackgroundPositionHandler(value string) bool {
-	splitVals := strings.Split(value, ";")
+	splitVals := strings.Split(value, ",")
 	values := []string{"left", "left top", "left bottom", "right", "right top", "right bottom", "right center", "center top", "center center", "center bottom", "center", "top", "bottom", "initial", "inherit"}
 	if in(splitVals, values) {
 		return true
@@ -653,7 +653,7 @@ func BorderSideWidthHandler(value string) bool {
 	if LengthHandler(value) {
 		return true
 	}
-	splitVals := strings.Split(value, ";")
+	splitVals := strings.Split(value, ",")
 	values := []string{"medium", "thin", "thick", "initial", "inherit"}
 	return in(splitVals, values)
 }
@@ -943,7 +943,7 @@ func ColumnRuleWidthHandler(value string) bool {
 	if LengthHandler(value) {
 		return true
 	}
-	splitVals := strings.Split(value, ";")
+	splitVals := strings.Split(value, ",")
 	values := []string{"medium", "thin", "thick", "initial", "inherit"}
 	return in(splitVals, values)
 }
@@ -958,7 +958,7 @@ func ColumnWidthHandler(value string) bool {
 	if LengthHandler(value) {
 		return true
 	}
-	splitVals := strings.Split(value, ";")
+	splitVals := strings.Split(value, ",")
 	values := []string{"auto", "initial", "inherit"}
 	return in(splitVals, values)
 }
@@ -1054,7 +1054,7 @@ func FlexBasisHandler(value string) bool {
 	if LengthHandler(value) {
 		return true
 	}
-	splitVals := strings.Split(value, ";")
+	splitVals := strings.Split(value, ",")
 	values := []string{"auto", "initial", "inherit"}
 	return in(splitVals, values)
 }
@@ -1082,7 +1082,7 @@ func FlexGrowHandler(value string) bool {
 	if NumericDecimal.MatchString(value) {
 		return true
 	}
-	splitVals := strings.Split(value, ";")
+	splitVals := strings.Split(value, ",")
 	values := []string{"initial", "inherit"}
 	return in(splitVals, values)
 }
